@@ -454,7 +454,9 @@ def grid_layout(ctx, rule="R09.5"):
 
 
 def run(ctx):
-    from .C13 import forcing_sites
+    from .C13 import forcing_sites, radius_sites
+
+    radius_sites(ctx, rule="R09.11")  # automatic lat-lon bins: every sphere conversion receives the caller's geo_scale (shared with C13)
 
     forcing_sites(ctx, rule="R09.9")  # lat-lon preprocessing of vario_estimate: bins to radians exactly once, 2-D, no directions (shared with C13)
     from ..small import none_default_rule
